@@ -84,6 +84,7 @@ def gen_world(rng, i, tier):
     ml = dl[1] in ("=", ":") and rng.chance(0.5)      # continuation lines exist only for non-blank delimiter sets
     w["multiline"] = ml
     w["comment_first"] = rng.chance(0.5)        # order of the two options on the command line
+    w["opt_spelling"] = rng.pick(["long=", "long=", "long", "short", "short-attached"])     # --comment=X | --comment X | -c X | -cX
     base = rng.pick(["app", "my.app", "x"])
     w["base"] = base
     # the root the tool is pointed at may have any legal directory name
@@ -158,9 +159,13 @@ def build_plans(world):
     cm = world["comment"]
     base = world["base"]
     target = world.get("single_path", "$ROOT/some/dir/%s.conf" % base) if world["single"] else "%s.conf" % base
-    common = ["--delimiters=" + arg_d, "--comment=" + cm]
+    sp = world.get("opt_spelling", "long=")
+    dopt = {"long=": ["--delimiters=" + arg_d], "long": ["--delimiters", arg_d], "short": ["-d", arg_d], "short-attached": ["-d" + arg_d]}[sp if arg_d != "" or sp in ("long=", "long", "short") else "long="]
+    copt = {"long=": ["--comment=" + cm], "long": ["--comment", cm], "short": ["-c", cm], "short-attached": ["-c" + cm]}[sp]
+    common = [dopt, copt]
     if world.get("comment_first"):
         common.reverse()
+    common = common[0] + common[1]
     rs = world.get("rootsub", "")
     env = {"ECONFTOOL_ROOT": world.get("rootpre", "") + "$ROOT" + rs, "ASAN_OPTIONS": "exitcode=77:detect_leaks=0:replace_str=0:intercept_strlen=0:intercept_strchr=0:intercept_strndup=0", "UBSAN_OPTIONS": "print_stacktrace=1:halt_on_error=1:exitcode=77", "HOME": "$ROOT/home"}
     ops = []
